@@ -355,8 +355,10 @@ def parent_main(args):
     workdir = tempfile.mkdtemp(prefix=f"verif-{pid}-")
     procs = []
     env = dict(os.environ)
-    env["PYTHONHASHSEED"] = "0"
     for shard in range(nshards):
+        # str / enum hashes - hence the iteration order of sets - differ between processes of an application; every
+        # shard gets its own, fixed hash seed (recorded with the shard number in replay files and restored on replay)
+        env["PYTHONHASHSEED"] = str(shard)
         out = os.path.join(workdir, f"shard{shard}.json")
         log = open(os.path.join(workdir, f"shard{shard}.log"), "w", encoding="utf-8")  # pylint:disable=consider-using-with
         cmd = [
@@ -518,8 +520,12 @@ def replay_main(args):
     pid = args.pid.upper()
     with open(args.replay, encoding="utf-8") as handle:
         doc = json.load(handle)
-    # the environment of the shard that found the case (logging, warnings filter, preheated caches: vlib/sut.py)
+    # the environment of the shard that found the case (logging, warnings filter, preheated caches, event loop policy:
+    # vlib/sut.py; the hash seed must be in place before the interpreter starts, hence the re-execution)
     os.environ["VERIF_SHARD"] = str(doc.get("shard", 0))
+    if os.environ.get("PYTHONHASHSEED") != str(doc.get("shard", 0)):
+        env = dict(os.environ, PYTHONHASHSEED=str(doc.get("shard", 0)))
+        return subprocess.run([sys.executable, "-m", "vlib.runner", pid, "--replay", args.replay], cwd=ROOT, env=env, check=False).returncode
     prop = load_prop(pid)
     stage = {s.name: s for s in prop.STAGES}[doc["stage"]]
     try:
